@@ -48,6 +48,15 @@ SPECS.append(
     {"name": "ListSpec", "lib": "std$list",
      "steps": [("stepReverse", 200, "$reverse"), ("stepAppend", 200, "$append"), ("stepFilter", 200, "$filter"),
                ("stepSearch", 200, "$find"), ("stepBind", 200, "$bind")]})
+SPECS.append(
+    {"name": "SetInternalsSpec", "lib": "std$set", "open": "set",
+     "steps": [("stepJoinTallLeft", 420, "$join"), ("stepJoinTallRight", 420, "$join"), ("stepJoinBoth", 420, "$join"),
+               ("stepConcat", 420, "$concat"), ("stepBalancedTallLeft", 420, "$balanced"), ("stepBalancedTallRight", 420, "$balanced"), ("stepAddMinMax", 300, "$addMinElement")]})
+SPECS.append(
+    {"name": "MapInternalsSpec", "lib": "std$map", "open": "map",
+     "steps": [("stepJoinTallLeft", 420, "$join"), ("stepJoinTallRight", 420, "$join"), ("stepJoinBoth", 420, "$join"),
+               ("stepConcat", 420, "$concat"), ("stepInternalMerge", 420, "$internalMerge"), ("stepBalancedTallLeft", 420, "$balanced"), ("stepBalancedTallRight", 420, "$balanced"),
+               ("stepAddBinding", 300, "$addMinBinding")]})
 STD = ["map", "set", "list", "option", "boxed", "tuples", "interfaces", "result"]
 
 
@@ -127,6 +136,7 @@ def _run_step(job):
     b = dict(BOUNDS, seconds=seconds)
     ex = irsym.Exec(P, w, "new", True, b)
     ex.deadline = time.time() + seconds
+    ex.merge_pure = True      # pure if/else diamonds of the specification are joined with ite instead of forking
     if seed:
         ex.rng = random.Random("%s.%s.%d" % (spec, step, seed))
     f = P.fns[fn]
@@ -177,6 +187,20 @@ def _run_step(job):
     return out
 
 
+def open_copy(sc, module):
+    """a copy of the scratch std/<module>.sam in which the `private` modifier of class members is dropped (nothing
+    else changes), so that a specification program can drive join / concat / balanced directly"""
+    src = open(os.path.join(sc.w, "std", module + ".sam")).read()
+    out, n = re.subn(r"(?m)^(\s*)private (function|method) ", r"\1\2 ", src)
+    if n == 0:
+        raise Inconclusive("std/%s.sam has no private members any more: the internals specification needs a review" % module)
+    d = os.path.join(sc.root, "et", "std_open")
+    os.makedirs(d, exist_ok=True)
+    path = os.path.join(d, module + ".sam")
+    open(path, "w").write(out)
+    return path
+
+
 def prepare(sc, drv, scale=1, only=None, seed=0):
     """compile the specification programs against the scratch copy of std; -> (jobs, progs)"""
     std_mods = ["std.%s=%s" % (m, os.path.join(sc.w, "std", m + ".sam")) for m in STD if os.path.exists(os.path.join(sc.w, "std", m + ".sam"))]
@@ -186,6 +210,8 @@ def prepare(sc, drv, scale=1, only=None, seed=0):
         src = os.path.join(VERIF, "corpus_spec", sp["name"] + ".sam")
         od = os.path.join(sc.root, "et", sp["name"])
         mods = [sp["name"] + "=" + src] + std_mods
+        if sp.get("open"):
+            mods = [m for m in mods if not m.startswith("std.%s=" % sp["open"])] + ["std.%s=%s" % (sp["open"], open_copy(sc, sp["open"]))]
         p = drv.call(["dump", od, "none"] + mods, check=False, timeout=600)
         if '"status":"ok"' not in p.stdout:
             raise Inconclusive("the specification program %s does not compile against the current std: %s" % (sp["name"], p.stdout[:400]))
